@@ -25,9 +25,10 @@ type concIn struct {
 	Calls      int    `json:"calls"`
 	Seed       int64  `json:"seed"`
 	Comp       int    `json:"comp"`
-	RecSize    int    `json:"recsize"` // concrio: > 0 makes every record that many bytes longer (records larger than the 4 KiB seek window)
+	RecSize    int    `json:"recsize"`  // concrio: > 0 makes every record that many bytes longer (records larger than the 4 KiB seek window)
+	Stack      bool   `json:"stack"`    // concsst: the reader under test is a stacked reader over two tables (every other written key in each)
 	HashMode   string `json:"hashmode"` // concsst: "" default (verify on load) | "read" (verify every read) | "none"
-	CutTail    bool   `json:"cuttail"` // concrio: the file is cut inside its last record before the readers start (reads of it must fail, all others stay exact)
+	CutTail    bool   `json:"cuttail"`  // concrio: the file is cut inside its last record before the readers start (reads of it must fail, all others stay exact)
 }
 
 func init() { register("concsst", runConcSST); register("concrio", runConcRIO) }
@@ -72,9 +73,43 @@ func runConcSST(args []string) error {
 	case "none":
 		ropts = append(ropts, sstables.SkipHashCheckOnLoad())
 	}
-	rd, err := sstables.NewSSTableReader(ropts...)
+	var rd sstables.SSTableReaderI
+	rd, err = sstables.NewSSTableReader(ropts...)
 	if err != nil {
 		return err
+	}
+	if in.Stack {
+		// the same content behind a stacked reader: two tables holding every other written key each (the trace above describes their union)
+		var members []sstables.SSTableReaderI
+		for half := 0; half < 2; half++ {
+			hdir := filepath.Join(in.Dir, fmt.Sprintf("h%d", half))
+			os.MkdirAll(hdir, 0o700)
+			hw, err := sstables.NewSSTableStreamWriter(sstables.WriteBasePath(hdir), sstables.WithKeyComparator(cmp), sstables.DataCompressionType(in.Comp))
+			if err != nil {
+				return err
+			}
+			if err := hw.Open(); err != nil {
+				return err
+			}
+			for r, i := 1, 0; r < n; r, i = r+2, i+1 {
+				if i%2 == half {
+					if err := hw.WriteNext(key(r), val(r)); err != nil {
+						return err
+					}
+				}
+			}
+			if err := hw.Close(); err != nil {
+				return err
+			}
+			hopts := append([]sstables.ReadOption{sstables.ReadBasePath(hdir)}, ropts[1:]...)
+			hr, err := sstables.NewSSTableReader(hopts...)
+			if err != nil {
+				return err
+			}
+			members = append(members, hr)
+		}
+		rd.Close()
+		rd = sstables.NewSuperSSTableReader(members, cmp)
 	}
 	tok := func(k, v []byte) (int, string) {
 		var r int
